@@ -15,11 +15,17 @@ def eval_spec(I, st, node, env, fi=None):
     fr.spec_env = env
     st.frames.append(fr)
     st.spec_depth += 1
+    st.spec_side.append([])
     try:
         return I.eval(st, node)
     finally:
         st.spec_depth -= 1
         st.frames.pop()
+        for f in st.spec_side.pop():
+            if st.spec_side:
+                st.spec_side[-1].append(f)
+            else:
+                st.assume(f)
 
 
 def eval_clause(I, st, clause, env, fi=None, allow_effects=False):
@@ -47,7 +53,7 @@ def spec_builtin(I, st, name, args, kwargs, node):
         return mkbool(z3.Xor(I.truthy(st, args[0]), I.truthy(st, args[1])))
     if name == "ite":
         return I.ite(st, I.truthy(st, args[0]), args[1], args[2])
-    if name == "at":
+    if name in ("at", "val_at"):
         m, k = args[0], args[1]
         if m.ty == "NoneT" or (m.extra and m.extra[0] == "emptydict" and m.term is None):
             return mkreal(0)
@@ -156,7 +162,8 @@ def spec_builtin(I, st, name, args, kwargs, node):
         return mkint(I.list_len(st, args[0]))
     if name == "seq_at":
         kd = I.kd_of(args[0])
-        return Val(kd.V, z3.Select(I.list_items(st, args[0]), args[1].term))
+        return I.elem_val(st, kd, z3.Select(I.list_items(st, args[0]), args[1].term),
+                          z3.And(0 <= args[1].term, args[1].term < I.list_len(st, args[0])))
     if name == "select":
         return Val(args[0].ty[2] if isinstance(args[0].ty, tuple) else "Any", z3.Select(args[0].term, args[1].term))
     if name == "clock":
